@@ -31,6 +31,8 @@ fn registry() -> Vec<(&'static str, RunFn, ReplayFn)> {
         ("C21", props::c21::run, props::c21::replay),
         ("C22", props::c22::run, props::c22::replay),
         ("C23", props::c23::run, props::c23::replay),
+        ("C24", props::c24::run, props::c24::replay),
+        ("C25", props::c25::run, props::c25::replay),
         ("C26", props::c26::run, props::c26::replay),
         ("C30", props::c30::run, props::c30::replay),
         ("C31", props::c31::run, props::c31::replay),
